@@ -100,7 +100,11 @@ class Code3(Code2):
                 co_lnotab += bytearray([255, 0])
                 offset_diff -= 255
             while line_diff >= 256:
-                co_lnotab += bytearray([0, 255])
+                # The address increment goes with the first line chunk:
+                # a (0, 255) entry placed before it would move the line of
+                # the previous address.
+                co_lnotab += bytearray([offset_diff, 255])
+                offset_diff = 0
                 line_diff -= 255
             if 0 <= line_diff <= 256:
                 # FIXME: should warn about dropping off a line number
